@@ -4,7 +4,7 @@ C18 — property theorems of round 5.
 decrypters per group   loadDecrypters_fingerprints, foreign_fingerprint_has_no_decrypter, decrypterOf_last_wins,
                        decrypters_of_a_group_ignore_the_other_groups, cs_rejects_fingerprint_of_another_group,
                        rest_signed_route_rejects_key_of_another_group
-converse               jwt_complete_monitor_sound, jwt_valid_credential_runs_handler, rest_valid_request_reaches_handler
+converse               cs_complete_monitor_sound, csCovers_verifies, cryptionHandler_not_403, jwt_complete_monitor_sound, jwt_valid_credential_runs_handler, rest_valid_request_reaches_handler
 -/
 import GoZero.C18.PropsRest
 namespace GoZero.C18
@@ -148,6 +148,80 @@ theorem jwt_valid_credential_runs_handler {V : Type} (f : TokenFacts V) (now : I
     (clock : Int) (hc : credentialOk f now secret prev = true) :
     (authorize (jwtVerify f now) h secret prev clock).2.ran = true := by
   rw [jwt_handler_runs_iff_valid_credential]; exact hc
+
+/-- a covering signature passes both steps of the gate -/
+theorem csCovers_verifies (env : CsEnv) (cfg : CsCfg) (req : CsReq) (hu : req.uri = "")
+    (hc : csCovers env cfg req = true) :
+    ∃ h, parseContentSecurity env req = .ok h ∧ verifySignature env cfg.tol req h = 0 := by
+  unfold csCovers at hc
+  cases hp : parseContentSecurity env req with
+  | error e => simp [hp] at hc
+  | ok h =>
+    simp only [hp] at hc
+    cases hts : parseInt64 h.timestamp with
+    | none => simp [hts] at hc
+    | some s =>
+      simp only [hts, Bool.and_eq_true, Bool.not_eq_true', decide_eq_true_eq] at hc
+      refine ⟨h, rfl, ?_⟩
+      unfold verifySignature
+      simp only [hts, hc.1, pathQuery_no_uri env req hu]
+      simp [← hc.2]
+
+theorem decryptAndServe_not_403 (C : BlockCipher) (key content : Bytes) (inner : Inner)
+    (h : (decryptAndServe C key content inner).ran = false) : (decryptAndServe C key content inner).status ≠ 403 := by
+  unfold decryptAndServe at h ⊢
+  cases hb : b64Decode (bytesToString content) with
+  | none => simp
+  | some ct =>
+    simp only [hb] at h ⊢
+    cases hd : ecbDecrypt C key ct with
+    | ok p =>
+      simp only [hd] at h
+      rw [(flushResp_ran_seen C key p (inner p)).1] at h
+      exact absurd h (by simp)
+    | keyErr => simp
+    | panic => simp
+    | padErr => simp
+
+/-- `LimitCryptionHandler` never answers 403: when it does not call the handler the answer is 400 (or a panic) -/
+theorem cryptionHandler_not_403 (C : BlockCipher) (limit : Int) (key : Bytes) (cl : Int) (raw : Bytes) (inner : Inner)
+    (h : (cryptionHandler C limit key cl raw inner).ran = false) : (cryptionHandler C limit key cl raw inner).status ≠ 403 := by
+  rw [cryptionHandler_eq_viaRead] at h ⊢
+  unfold cryptionHandlerViaRead at h ⊢
+  by_cases h0 : cl = 0
+  · rw [if_pos h0] at h
+    rw [(flushResp_ran_seen C key raw (inner raw)).1] at h
+    exact absurd h (by simp)
+  · rw [if_neg h0] at h ⊢
+    cases hr : readBody limit cl raw with
+    | none => simp
+    | some c =>
+      simp only [hr] at h ⊢
+      by_cases he : c.isEmpty = true
+      · rw [if_pos he] at h
+        rw [(flushResp_ran_seen C key [] (inner [])).1] at h
+        exact absurd h (by simp)
+      · rw [if_neg he] at h ⊢
+        exact decryptAndServe_not_403 C key c inner h
+
+/-- the completeness monitor of the signature gate never fires on the model: a request whose signature covers it is
+never refused with 403 — for every configuration (strict or not), framing, body, key and cipher -/
+theorem cs_complete_monitor_sound (C : BlockCipher) (env : CsEnv) (cfg : CsCfg) (req : CsReq) (inner : Inner) :
+    csCompleteMonitor env cfg req (contentSecurity C env cfg req inner) = none := by
+  unfold csCompleteMonitor
+  apply if_neg
+  rintro ⟨hg, hu, hc, hran, _, hst⟩
+  have hu' : req.uri = "" := by simpa using hu
+  have hran' : (contentSecurity C env cfg req inner).ran = false := by simpa using hran
+  obtain ⟨h, hp, hv⟩ := csCovers_verifies env cfg req hu' hc
+  unfold contentSecurity at hran' hst
+  rw [if_pos hg] at hran' hst
+  simp only [hp, hv, ne_eq, not_true_eq_false, if_false] at hran' hst
+  by_cases he : req.cl ≠ 0 ∧ h.contentType = 1
+  · rw [if_pos he] at hran' hst
+    exact cryptionHandler_not_403 C cfg.limit h.key req.cl req.body inner hran' hst
+  · rw [if_neg he] at hran'
+    simp [plainNext] at hran'
 
 /-- at the level of a server, for EVERY base chain, `Use` list and option set: when every middleware of the base chain,
 every gate the route declared and every `Use` middleware passes the request on, the route's handler runs -/
